@@ -71,13 +71,13 @@ theorem lastOr_ne_nil (gap : Option Row) (gb : List Row) (h : gb ≠ []) : lastO
 
 /-- `for gap in gb: build_scffld.add_row(gap)`: the rows are appended to the object, `gap` is re-bound -/
 theorem forIn_addRows {ρ : Type}
-    (body : Row → (Option Row × Nat × List PyRt.Leftover × List Scaffold) →
-      R (PyRt.Ctl (Option Row × Nat × List PyRt.Leftover × List Scaffold) ρ))
-    (hbody : ∀ g gap r lo heap, body g (gap, r, lo, heap)
-      = .ok (.next (some g, r, lo, PyRt.bsSet heap r (fun sc => { sc with rows := sc.rows ++ [g] }))))
+    (body : Row → (Nat × Option Row × List Scaffold × List PyRt.Leftover) →
+      R (PyRt.Ctl (Nat × Option Row × List Scaffold × List PyRt.Leftover) ρ))
+    (hbody : ∀ g gap r lo heap, body g (r, gap, heap, lo)
+      = .ok (.next (r, some g, PyRt.bsSet heap r (fun sc => { sc with rows := sc.rows ++ [g] }), lo)))
     (gb : List Row) (gap : Option Row) (r : Nat) (lo : List PyRt.Leftover) (heap : List Scaffold) :
-    PyRt.forIn gb (gap, r, lo, heap) body
-      = .ok (.fell (lastOr gap gb, r, lo, PyRt.bsSet heap r (fun sc => { sc with rows := sc.rows ++ gb }))) := by
+    PyRt.forIn gb (r, gap, heap, lo) body
+      = .ok (.fell (r, lastOr gap gb, PyRt.bsSet heap r (fun sc => { sc with rows := sc.rows ++ gb }), lo)) := by
   induction gb generalizing gap heap with
   | nil =>
     rw [bsSet_id heap r _ (by intro x; simp)]
@@ -408,14 +408,14 @@ theorem foldl_stepSrc_ordered (store : List Res) (extra : List (Scaffold × Opti
 
 /-- a loop over `self.scaffolds` whose body does `step` on `(dict, arena, gap)` and leaves the arena of left-overs alone -/
 theorem forIn_fuse {ρ : Type} (step : PyRt.BuiltRef → St → St) (lo0 : List PyRt.Leftover)
-    (body : PyRt.BuiltRef → (List (FKey × Nat) × List Scaffold × List PyRt.Leftover × Option Row) →
-      R (PyRt.Ctl (List (FKey × Nat) × List Scaffold × List PyRt.Leftover × Option Row) ρ))
-    (hbody : ∀ x dict heap gap, body x (dict, heap, lo0, gap)
-      = .ok (.next ((step x (dict, heap, gap)).1, (step x (dict, heap, gap)).2.1, lo0, (step x (dict, heap, gap)).2.2)))
+    (body : PyRt.BuiltRef → (Option Row × List (FKey × Nat) × List Scaffold × List PyRt.Leftover) →
+      R (PyRt.Ctl (Option Row × List (FKey × Nat) × List Scaffold × List PyRt.Leftover) ρ))
+    (hbody : ∀ x dict heap gap, body x (gap, dict, heap, lo0)
+      = .ok (.next ((step x (dict, heap, gap)).2.2, (step x (dict, heap, gap)).1, (step x (dict, heap, gap)).2.1, lo0)))
     (refs : List PyRt.BuiltRef) (dict : List (FKey × Nat)) (heap : List Scaffold) (gap : Option Row) :
-    PyRt.forIn refs (dict, heap, lo0, gap) body
-      = .ok (.fell ((refs.foldl (fun s x => step x s) (dict, heap, gap)).1, (refs.foldl (fun s x => step x s) (dict, heap, gap)).2.1,
-          lo0, (refs.foldl (fun s x => step x s) (dict, heap, gap)).2.2)) := by
+    PyRt.forIn refs (gap, dict, heap, lo0) body
+      = .ok (.fell ((refs.foldl (fun s x => step x s) (dict, heap, gap)).2.2, (refs.foldl (fun s x => step x s) (dict, heap, gap)).1,
+          (refs.foldl (fun s x => step x s) (dict, heap, gap)).2.1, lo0)) := by
   induction refs generalizing dict heap gap with
   | nil => rfl
   | cons x xs ih =>
